@@ -1030,7 +1030,7 @@ func TestSequential(t *testing.T) {
 	if evid.ReplayPath() != "" || os.Getenv("VERIF_C10_CHILD") != "" {
 		t.Skip()
 	}
-	evid.Check(t, "sequential", evid.Scale(8000, 800000), runSeq)
+	evid.Check(t, "sequential", evid.Scale(8000, 640000), runSeq)
 }
 
 // TestKnownFindings re-runs the fixed inputs of the deterministic known findings so that
